@@ -117,6 +117,13 @@ v('c05-handler-removed', 'break', ['C05'], DR, ('                Section.FILE_DI
 v('c06-new-default', 'break', ['C06'], W, ('def write_diff(self, content, diff_type=None,', "def write_diff(self, content, diff_type='text',"))
 
 
+v('c16-fabricated-newline', 'break', ['C16'], T, ("    elif keep_ends:\n        lines[-1] = lines[-1][:-len(newline)]\n", ""))
+v('c16-splitlines', 'break', ['C16'], T, ("    lines = data.split(newline)\n", "    lines = data.splitlines()\n"))
+v('c16-drop-last-always', 'break', ['C16'], T, ("    if data.endswith(newline):\n        lines.pop()\n    elif keep_ends:", "    lines.pop()\n    if False:\n        pass\n    elif keep_ends and False:"))
+v('c16-benign-plus', 'benign', ['C16', 'C08', 'C01'], T, ("            b'%s%s' % (_line, newline)\n", "            _line + newline\n"))
+v('c16-benign-del', 'benign', ['C16', 'C08'], T, ("        lines.pop()\n", "        del lines[-1]\n"))
+
+
 def run_variant(var, jobs_env):
     tmp = tempfile.mkdtemp(prefix='selftest_', dir='/tmp')
     out = {'name': var['name'], 'kind': var['kind'], 'results': {}, 'ok': False}
